@@ -20,7 +20,7 @@ exec(open(os.path.join(os.path.dirname(__file__), "manifest_table.py")).read())
 ALL = ["C%02d" % i for i in range(1, 21)]
 m = {
     "version": 1,
-    "setup_cmd": "cd /verif/harness && (cp /repo/go.sum go.sum 2>/dev/null || : > go.sum) && %s go build -tags verif -o ../bin/vcheck ./cmd/vcheck && %s go build -race -tags verif -o ../bin/vcheck-race ./cmd/vcheck && %s go test -tags verif ./oracle/ ./core/ ./wl/" % (ENV, ENV, ENV),
+    "setup_cmd": "cd /verif/harness && (cp /repo/go.sum go.sum 2>/dev/null || : > go.sum) && %s go build -tags verif -o ../bin/vcheck ./cmd/vcheck && %s go build -race -tags verif -o ../bin/vcheck-race ./cmd/vcheck && %s go test -tags verif ./oracle/ ./core/ ./wl/ ./sg/ ./props/" % (ENV, ENV, ENV),
     "hooks": {
         "guard": "verif",
         "enable": "go build -tags verif (the check wrapper ./check always builds the harness, and goldmark through its replace directive, with -tags verif)",
